@@ -54,4 +54,34 @@ def independentSession (k : Kind) (S : Sys V α) (c : Config α) (omega : α) (s
       | none => none
       | some rs => some (r :: rs)
 
+/-- one life-cycle step of a session on a solver object: a solve, or a re-initialisation
+    (`done_numeric(); init_numeric()` resp. the full `done(); init()` = done_numeric, done_symbolic, init_symbolic,
+    init_numeric).  The work vectors are released/re-created by these calls; the convergence-control members are plain
+    counters of `IterativeSolver` that no init/done function touches — they survive until the next
+    `_set_initial_defect` -/
+inductive SessionStep (V : Type) where
+  | solve (isApply : Bool) (x0 b : V)
+  | reinitNumeric
+  | reinitFull
+
+/-- a session with re-initialisations between the solves on ONE solver object -/
+def runSteps (k : Kind) (S : Sys V α) (c : Config α) (omega : α) :
+    State α → List (SessionStep V) → Option (List (Result V α))
+  | _, [] => some []
+  | prev, .solve isApply x0 b :: rest =>
+    match solveOne k S c omega prev isApply x0 b with
+    | none => none
+    | some r =>
+      match runSteps k S c omega r.st rest with
+      | none => none
+      | some rs => some (r :: rs)
+  | prev, .reinitNumeric :: rest => runSteps k S c omega prev rest
+  | prev, .reinitFull :: rest => runSteps k S c omega prev rest
+
+/-- the solves of a step list -/
+def solvesOf : List (SessionStep V) → List (Bool × V × V)
+  | [] => []
+  | .solve isApply x0 b :: rest => (isApply, x0, b) :: solvesOf rest
+  | _ :: rest => solvesOf rest
+
 end FeatModel.Solver
